@@ -39,12 +39,16 @@ var dischargeTable = []discharge{
 	{fn: "parser.acceptToken$1", via: []string{"txn:X6"}, reason: "see acceptTerm"},
 	{fn: "parser.varName$1", via: []string{"txn:X6"}, reason: "see acceptTerm"},
 	{fn: "parser.*", via: []string{"grammar:G4"}, reason: "every transformer (with the helpers it calls) was evaluated on every shape its grammar rule produces; an arity panic or failed assertion would have been reported"},
+	{fn: "(parser.*", kinds: "assert", msg: "token.Type", via: []string{"txn:X6"}, reason: "a token predicate written as a method: the only Token implementation handed to the parser is token.Type (TLexer.Token)"},
+	{fn: "(*parser.*", kinds: "assert", msg: "token.Type", via: []string{"txn:X6"}, reason: "see above"},
+	{fn: "(parser.*", via: []string{"grammar:G4"}, reason: "methods of package parser are evaluated with the transformers and wrappers that call them"},
+	{fn: "(*parser.*", via: []string{"grammar:G4"}, reason: "see above"},
 	{fn: "combinator.Choose$1", via: []string{"grammar:G2"}, reason: "every Choose of the grammar ends in an alternative that cannot fail"},
 	{fn: "combinator.OneOf", via: []string{"grammar:G5"}, reason: "every constructor call of the grammar was evaluated with its actual arguments"},
 	{fn: "combinator.Seq", via: []string{"grammar:G5"}, reason: "every constructor call of the grammar was evaluated with its actual arguments"},
 	{fn: "lexer.eof", via: []string{"lexfsm:L2", "lexfsm:N7"}, reason: "the end-of-input state is entered only at the end of input and never called"},
-	{fn: "types/bytecode.EncodeSrc", msg: "srcAddr out of range", known: true, reason: "reachable by program size: the limit is enforced by panic"},
-	{fn: "types/bytecode.EncodeSrc", msg: "wrong srcsel", via: []string{"bcai:B1"}, reason: "every operand selector in the compiler is a constant 0..2"},
+	{fn: "types/bytecode.*", msg: "srcAddr out of range", known: true, reason: "reachable by program size: the limit is enforced by panic"},
+	{fn: "types/bytecode.*", msg: "wrong srcsel", via: []string{"bcai:B1"}, reason: "every operand selector in the compiler is a constant 0..2"},
 	{fn: "(types/bytecode.Type).Src", via: []string{"bcai:B1"}, reason: "Src is called with selectors 0 and 1 only"},
 	{fn: "(types/node.For).byteCode", via: []string{"bcai:B1", "bcai:B2", "grammar:G7"}, reason: "loops are explored with as many variables as iterators; the parser refuses every other loop (G7), so the count mismatch panic is unreachable"},
 	{fn: "(types/node.*).byteCode", via: []string{"bcai:B1", "bcai:B2"}, reason: "never reached in the exhaustive exploration of the compiler (a reached panic is reported as B0)"},
@@ -200,7 +204,10 @@ func abortRun(p *load.Program, tier string) *oblig.Set {
 		case d.doc:
 			s.OK("C5", key, site.pos, "documented / environment: "+d.reason)
 		case d.known:
-			s.Bad("C5", key, site.pos, "reachable abort: "+d.reason)
+			// a recorded finding is identified by what aborts (package and
+			// message), not by the name of the function the panic stands in
+			kk := fmt.Sprintf("%s / %s %q", pkgOfFn(site.fn), site.kind, d.msg)
+			s.Bad("C5", kk, site.pos, "reachable abort: "+d.reason)
 		default:
 			var failed []string
 			for _, er := range d.via {
@@ -217,6 +224,15 @@ func abortRun(p *load.Program, tier string) *oblig.Set {
 		}
 	}
 	return s
+}
+
+// pkgOfFn: "types/bytecode.EncodeSrc" -> "types/bytecode", "(*vm.Type).Run" -> "vm".
+func pkgOfFn(fn string) string {
+	fn = strings.TrimLeft(fn, "(*")
+	if i := strings.Index(fn, "."); i > 0 {
+		return fn[:i]
+	}
+	return fn
 }
 
 func short(s string) string {
